@@ -599,46 +599,50 @@ Section WsProofs.
       rewrite (feed_hdr_exact (negb client) hrest (mkWR [130; mb + code] hs' None 0 m0 0 false false sl) eq_refl Hrne Hrl).
       unfold with_hdr. cbn [wr_hdr wr_hsize wr_pay wr_first wr_mask wr_op wr_closed wr_err wr_slave].
       (* the second header-complete step: payload size and mask *)
-      assert (Hhd : wr_header_done (negb client) (mkWR ([130; mb + code] ++ hrest) hs' None 0 m0 0 false false sl) =
-                    (mkWR ([130; mb + code] ++ hrest) hs' (Some (n, [])) 0 (if client then key else [0; 0; 0; 0]) 2 false false sl, [])).
-      { unfold WsModel.wr_header_done. cbn [wr_hdr wr_hsize app nth]. rewrite Ehs, Hmbit, Hl7.
-        assert (Hinit : forall off, (client = true -> take 4 (drop off ([130; mb + code] ++ hrest)) = key) ->
-                   wr_init_payload Msg SR sfeed (mkWR ([130; mb + code] ++ hrest) hs' None 0 m0 0 false false sl) n (if client then Some off else None)
-                   = (mkWR ([130; mb + code] ++ hrest) hs' (Some (n, [])) 0 (if client then key else [0; 0; 0; 0]) 2 false false sl, [])).
-        { intros off Hoff. unfold wr_init_payload. cbn [wr_hdr wr_pay wr_hsize wr_first wr_mask wr_op wr_closed wr_err wr_slave app nth].
-          assert (E0 : (n =? 0) = false) by lia. rewrite E0.
+      set (fullh := [130; mb + code] ++ hrest).
+      assert (Hf0 : nth 0 fullh 0 = 130) by reflexivity.
+      assert (Hf1 : nth 1 fullh 0 = mb + code) by reflexivity.
+      assert (Hfd : drop 2 fullh = hrest) by reflexivity.
+      assert (Hfl : blen fullh = hs') by (subst fullh; rewrite blen_app; exact Hrl).
+      clearbody fullh.
+      assert (Hhd : wr_header_done (negb client) (mkWR fullh hs' None 0 m0 0 false false sl) =
+                    (mkWR fullh hs' (Some (n, [])) 0 (if client then key else [0; 0; 0; 0]) 2 false false sl, [])).
+      { unfold WsModel.wr_header_done. cbn [wr_hdr wr_hsize]. rewrite Hf0, Hf1, Ehs, Hmbit, Hl7.
+        assert (Hinit : forall off, (client = true -> take 4 (drop off fullh) = key) ->
+                   wr_init_payload Msg SR sfeed (mkWR fullh hs' None 0 m0 0 false false sl) n (if client then Some off else None)
+                   = (mkWR fullh hs' (Some (n, [])) 0 (if client then key else [0; 0; 0; 0]) 2 false false sl, [])).
+        { intros off Hoff. unfold wr_init_payload. cbn [wr_hdr wr_pay wr_hsize wr_first wr_mask wr_op wr_closed wr_err wr_slave].
+          rewrite Hf0. assert (E0 : (n =? 0) = false) by lia. rewrite E0.
           destruct client; [rewrite (Hoff eq_refl)|]; reflexivity. }
+        assert (Hkeyat : forall e, client = true -> hrest = e ++ ws_key_wire key -> take 4 (drop (2 + blen e) fullh) = key).
+        { intros e Hc He. rewrite <- drop_drop, Hfd, He, drop_app_exact. pose proof (Hklen Hc) as Hk4.
+          unfold ws_key_wire in *. apply take_all. lia. }
         (* which length class *)
         subst hs' hrest code ext.
         destruct (65535 <? n) eqn:E1.
         - (* 64-bit length *)
-          change (127 =? 126) with false. change (127 =? 127) with true. cbv iota.
-          assert (Hsz : rdbe (take 8 (drop 2 ([130; mb + 127] ++ be64 n ++ (if client then ws_key_wire key else [])))) 0 = n).
-          { change (drop 2 ([130; mb + 127] ++ be64 n ++ (if client then ws_key_wire key else []))) with (be64 n ++ (if client then ws_key_wire key else [])).
-            change 8 with (blen (be64 n)). rewrite take_app_exact. apply rdbe_be64. unfold two32. lia. }
+          change (127 =? 126) with false in *. change (127 =? 127) with true in *. cbv iota in *.
+          assert (Hsz : rdbe (take 8 (drop 2 fullh)) 0 = n).
+          { rewrite Hfd. change 8 with (blen (be64 n)). rewrite take_app_exact. apply rdbe_be64. unfold two32. lia. }
+          assert (Ea : (9223372036854775808 <=? n) = false) by lia. assert (Eb : (ws_max_payload <? n) = false) by lia.
           destruct client; cbn [negb].
           + change (2 + 8 + 4 =? 2) with false. change (2 + 8 + 4 =? 6) with false.
             change ((2 + 8 + 4 =? 4) || (2 + 8 + 4 =? 8)) with false. change ((2 + 8 + 4 =? 10) || (2 + 8 + 4 =? 14)) with true. cbv iota.
-            rewrite Hsz. assert (Ea : (9223372036854775808 <=? n) = false) by lia. assert (Eb : (ws_max_payload <? n) = false) by lia.
-            rewrite Ea, Eb. unfold u32. rewrite N.mod_small by (unfold two32; lia).
-            apply (Hinit 10). intros _. change (drop 10 ([130; mb + 127] ++ be64 n ++ ws_key_wire key)) with (ws_key_wire key).
-            apply take_all. rewrite (Hklen eq_refl). lia.
+            rewrite Hsz, Ea, Eb. unfold u32. rewrite N.mod_small by (unfold two32; lia).
+            apply (Hinit 10). intros Hc. exact (Hkeyat (be64 n) Hc eq_refl).
           + change (2 + 8 + 0 =? 2) with false. change (2 + 8 + 0 =? 6) with false.
             change ((2 + 8 + 0 =? 4) || (2 + 8 + 0 =? 8)) with false. change ((2 + 8 + 0 =? 10) || (2 + 8 + 0 =? 14)) with true. cbv iota.
-            rewrite Hsz. assert (Ea : (9223372036854775808 <=? n) = false) by lia. assert (Eb : (ws_max_payload <? n) = false) by lia.
-            rewrite Ea, Eb. unfold u32. rewrite N.mod_small by (unfold two32; lia).
+            rewrite Hsz, Ea, Eb. unfold u32. rewrite N.mod_small by (unfold two32; lia).
             apply (Hinit 0). discriminate.
         - destruct (125 <? n) eqn:E2.
           + (* 16-bit length *)
-            change (126 =? 126) with true. cbv iota.
-            assert (Hsz : rdbe (take 2 (drop 2 ([130; mb + 126] ++ be16 n ++ (if client then ws_key_wire key else [])))) 0 = n).
-            { change (drop 2 ([130; mb + 126] ++ be16 n ++ (if client then ws_key_wire key else []))) with (be16 n ++ (if client then ws_key_wire key else [])).
-              change 2 with (blen (be16 n)) at 1. rewrite take_app_exact. apply rdbe_be16. lia. }
+            change (126 =? 126) with true in *. cbv iota in *.
+            assert (Hsz : rdbe (take 2 (drop 2 fullh)) 0 = n).
+            { rewrite Hfd. change 2 with (blen (be16 n)). rewrite take_app_exact. apply rdbe_be16. lia. }
             destruct client; cbn [negb].
             * change (2 + 2 + 4 =? 2) with false. change (2 + 2 + 4 =? 6) with false.
               change ((2 + 2 + 4 =? 4) || (2 + 2 + 4 =? 8)) with true. cbv iota. rewrite Hsz.
-              apply (Hinit 4). intros _. change (drop 4 ([130; mb + 126] ++ be16 n ++ ws_key_wire key)) with (ws_key_wire key).
-              apply take_all. rewrite (Hklen eq_refl). lia.
+              apply (Hinit 4). intros Hc. exact (Hkeyat (be16 n) Hc eq_refl).
             * change (2 + 2 + 0 =? 2) with false. change (2 + 2 + 0 =? 6) with false.
               change ((2 + 2 + 0 =? 4) || (2 + 2 + 0 =? 8)) with true. cbv iota. rewrite Hsz.
               apply (Hinit 0). discriminate.
@@ -647,14 +651,170 @@ Section WsProofs.
             rewrite En126, En127 in *. cbv iota in *.
             destruct client; cbn [negb]; [|cbn in Ehs; discriminate].
             change (2 + 0 + 4 =? 2) with false. change (2 + 0 + 4 =? 6) with true. cbv iota.
-            apply (Hinit 2). intros _. cbn [app]. change (drop 2 ([130; mb + n] ++ ws_key_wire key)) with (ws_key_wire key).
-            apply take_all. rewrite (Hklen eq_refl). lia. }
+            apply (Hinit 2). intros Hc. exact (Hkeyat [] Hc eq_refl). }
       rewrite Hhd. clear Hhd.
-      rewrite (Hpay ([130; mb + code] ++ hrest) hs' (if client then key else [0; 0; 0; 0]) pdata).
+      rewrite (Hpay fullh hs' (if client then key else [0; 0; 0; 0]) pdata).
       + reflexivity.
-      + rewrite blen_app. change (blen [130; mb + code]) with 2. exact Hrl.
-      + reflexivity.
+      + exact Hfl.
+      + exact Hf0.
       + subst pdata. destruct client; [apply ws_xor_involutive|reflexivity].
       + subst pdata. destruct client; [apply blen_ws_xor|reflexivity].
+  Qed.
+
+  (* ==================================================================== end to end *)
+  (* premises about the slave gateways: what the sender's slave writes for a Message of the domain is
+     non-empty, within the 10 MB frame limit, and is turned back into exactly that Message by the
+     receiver's slave, whose state stays in the invariant [sinv] (for MessageIOGateway slaves this is
+     FrameProofs.f_feed_frame); the masking keys are four bytes long *)
+  Variable wfm : Msg -> Prop.
+  Variable sinv : SR -> Prop.
+  Variable sl0 : SR.
+  Hypothesis sinv0 : sinv sl0.
+  Hypothesis slave_ok : forall sl m, sinv sl -> wfm m ->
+    sflat m <> [] /\ blen (sflat m) <= ws_max_payload /\
+    exists sl', sfeed sl (sflat m) = (sl', [m]) /\ sinv sl'.
+  Hypothesis keys_ok : Forall (fun k => length k = 4%nat) keys0.
+
+  Lemma keys_after_ok ms : forall keys, Forall (fun k => length k = 4%nat) keys ->
+    Forall (fun k => length k = 4%nat) (ws_keys_after keys ms).
+  Proof.
+    induction ms as [|m t IH]; intros keys Hk; cbn; auto.
+    apply IH. destruct client; auto. destruct keys; auto. inversion Hk; auto.
+  Qed.
+
+  Lemma ws_feed_wire ms : Forall wfm ms -> forall keys sl m0,
+    Forall (fun k => length k = 4%nat) keys -> sinv sl ->
+    exists m1 sl', wr_feed (negb client) (ws_idle m0 sl) (ws_wire_from keys ms) = (ws_idle m1 sl', ms) /\ sinv sl'.
+  Proof.
+    induction 1 as [|m t Hm _ IH]; intros keys sl m0 Hk Hs; cbn [ws_wire_from]; cbv zeta.
+    - exists m0, sl. auto.
+    - destruct (slave_ok sl m Hs Hm) as (Hne & Hmax & sl1 & Hf & Hs1).
+      set (key := match keys with k :: _ => k | [] => [0; 0; 0; 0] end) in *.
+      assert (Hkl : client = true -> length key = 4%nat).
+      { intros _. subst key. destruct keys; [reflexivity|]. inversion Hk; auto. }
+      set (keys' := if client then match keys with _ :: r => r | [] => [] end else keys) in *.
+      assert (Hk' : Forall (fun k => length k = 4%nat) keys').
+      { subst keys'. destruct client; auto. destruct keys; auto. inversion Hk; auto. }
+      destruct (IH keys' sl1 (if client then key else [0; 0; 0; 0]) Hk' Hs1) as (m1 & sl2 & Hf2 & Hs2).
+      exists m1, sl2. split; auto.
+      change (wr_feed (negb client) (ws_idle m0 sl) (ws_frame client key WS_BINARY (sflat m) ++ ws_wire_from keys' t) = (ws_idle m1 sl2, m :: t)).
+      rewrite wr_feed_app, (ws_parse_frame key (sflat m) sl sl1 [m] m0 Hne Hmax Hkl Hf), Hf2. reflexivity.
+  Qed.
+
+  Definition ws_wire (ms : list Msg) : bytes := ws_wire_from keys0 ms.
+  Definition ws_RRel (r : wrecv) (c : bytes) (o : list Msg) : Prop :=
+    wr_wf r /\ wr_feed (negb client) (wr_init sl0) c = (r, o).
+
+  Definition ws_sys0 := @sys0 Msg Msg wsend wrecv (ws_init keys0) (wr_init sl0).
+  Notation ws_run := (sys_run ws_queue (ws_do_output Msg sflat client) (wr_do_input (negb client))).
+
+  Lemma ws_S_init : ws_SI (ws_init keys0) [] /\ ws_rem (ws_init keys0) = [].
+  Proof. split; [|reflexivity]. split; [cbn; lia|]. exists []. auto. Qed.
+
+  Lemma ws_S_queue s ms m :
+    Forall wfm ms -> wfm m -> ws_SI s ms ->
+    ws_SI (ws_queue s m) (ms ++ [m]) /\
+    exists d, ws_rem (ws_queue s m) = ws_rem s ++ d /\ ws_wire (ms ++ [m]) = ws_wire ms ++ d.
+  Proof.
+    intros _ _ [Hoff (dn & Hms & Hk)]. split.
+    - split; [exact Hoff|]. exists dn. cbn. split; [now rewrite Hms, app_assoc|exact Hk].
+    - exists (ws_wire_from (ws_keys_after keys0 ms) [m]). split.
+      + unfold ws_rem. cbn [ws_queue ws_off ws_buf ws_keys ws_q]. rewrite ws_wire_from_app, app_assoc.
+        do 2 f_equal. rewrite Hms, ws_keys_after_app, Hk. reflexivity.
+      + unfold ws_wire. now rewrite ws_wire_from_app.
+  Qed.
+
+  Lemma ws_S_out s ms maxb scr s' x :
+    Forall wfm ms -> ws_SI s ms -> ws_do_output Msg sflat client s maxb scr = (s', x) ->
+    ws_SI s' ms /\ ws_rem s = x ++ ws_rem s'.
+  Proof. intros _. apply ws_do_output_spec. Qed.
+
+  Lemma wr_init_wf : wr_wf (wr_init sl0).
+  Proof. intros _. left. cbn. split; [lia|exact I]. Qed.
+
+  Lemma ws_R_init : ws_RRel (wr_init sl0) [] [].
+  Proof. split; [exact wr_init_wf|reflexivity]. Qed.
+
+  Lemma ws_R_in (ms : list Msg) r c o maxb scr pipe (rest : bytes) r' o' pipe' :
+    Forall wfm ms -> ws_wire ms = c ++ pipe ++ rest -> ws_RRel r c o ->
+    wr_do_input (negb client) r maxb scr pipe = (r', o', pipe') ->
+    exists x, pipe = x ++ pipe' /\ ws_RRel r' (c ++ x) (o ++ o').
+  Proof.
+    intros _ _ [Hwf Hc] H.
+    destruct (wr_do_input_spec _ _ _ _ _ _ _ _ Hwf H) as (Hwf' & x & Hp & Hf & _).
+    exists x. split; auto. split; auto. rewrite wr_feed_app, Hc, Hf. reflexivity.
+  Qed.
+
+  Lemma ws_full ms : Forall wfm ms ->
+    exists m1 sl', wr_feed (negb client) (wr_init sl0) (ws_wire ms) = (ws_idle m1 sl', ms).
+  Proof.
+    intros Hwf. destruct (ws_feed_wire ms Hwf keys0 sl0 [0; 0; 0; 0] keys_ok sinv0) as (m1 & sl' & Hf & _).
+    exists m1, sl'. exact Hf.
+  Qed.
+
+  Lemma ws_decode_prefix ms (r : wrecv) c o (rest : bytes) :
+    Forall wfm ms -> ws_wire ms = c ++ rest -> ws_RRel r c o -> exists tl, ms = o ++ tl.
+  Proof.
+    intros Hwf Hw [_ Hc]. destruct (ws_full ms Hwf) as (m1 & sl' & Hall).
+    rewrite Hw, wr_feed_app, Hc in Hall.
+    destruct (wr_feed (negb client) r rest) as [r2 o2]. inversion Hall. eauto.
+  Qed.
+
+  Lemma ws_decode_complete ms (r : wrecv) o :
+    Forall wfm ms -> ws_RRel r (ws_wire ms) o -> o ++ [] = ms.
+  Proof.
+    intros Hwf [_ Hc]. destruct (ws_full ms Hwf) as (m1 & sl' & Hall).
+    rewrite Hc in Hall. inversion Hall. now rewrite app_nil_r.
+  Qed.
+
+  Lemma ws_no_error ms (r : wrecv) c o (rest : bytes) :
+    Forall wfm ms -> ws_wire ms = c ++ rest -> ws_RRel r c o -> wr_err r = false.
+  Proof.
+    intros Hwf Hw [_ Hc]. destruct (ws_full ms Hwf) as (m1 & sl' & Hall).
+    rewrite Hw, wr_feed_app, Hc in Hall.
+    destruct (wr_err r) eqn:He; auto.
+    rewrite (wr_feed_err (negb client) r rest He) in Hall. inversion Hall as [[H1 H2]].
+    rewrite H1 in He. discriminate.
+  Qed.
+
+  Theorem ws_prefix_safety (evs : list (event Msg)) :
+    Forall (ev_wf wfm) evs -> exists tl, ev_msgs evs = s_dlv (ws_run ws_sys0 evs) ++ tl.
+  Proof.
+    apply (prefix_safety ws_queue (ws_do_output Msg sflat client) (wr_do_input (negb client)) (ws_init keys0) (wr_init sl0)
+             wfm ws_wire (fun ms : list Msg => ms) (fun o : list Msg => o) ws_rem ws_SI ws_RRel);
+      [reflexivity | exact ws_S_init | exact ws_S_queue | exact ws_S_out | exact ws_R_init
+      | exact ws_R_in | exact ws_decode_prefix].
+  Qed.
+
+  Theorem ws_completeness (evs : list (event Msg)) :
+    Forall (ev_wf wfm) evs ->
+    ws_rem (s_snd (ws_run ws_sys0 evs)) = [] -> s_pipe (ws_run ws_sys0 evs) = [] ->
+    s_dlv (ws_run ws_sys0 evs) = ev_msgs evs.
+  Proof.
+    intros Hf Hr Hp.
+    pose proof (completeness ws_queue (ws_do_output Msg sflat client) (wr_do_input (negb client)) (ws_init keys0) (wr_init sl0)
+             wfm ws_wire (fun ms : list Msg => ms) (fun o : list Msg => o) (fun _ => []) ws_rem ws_SI ws_RRel
+             eq_refl ws_S_init ws_S_queue ws_S_out ws_R_init ws_R_in ws_decode_complete evs Hf Hr Hp) as H.
+    now rewrite app_nil_r in H.
+  Qed.
+
+  Theorem ws_fair_completion (evs : list (event Msg)) (rs : list (list (event Msg))) :
+    Forall (ev_wf wfm) evs -> Forall round rs ->
+    (measure ws_rem (fun _ => 0%nat) (ws_run ws_sys0 evs) <= length rs)%nat ->
+    let st := ws_run ws_sys0 (evs ++ concat rs) in
+    quiet ws_rem st /\ s_dlv st = ev_msgs evs.
+  Proof.
+    intros Hf Hr Hm.
+    pose proof (fair_completion ws_queue (ws_do_output Msg sflat client) (wr_do_input (negb client)) (ws_init keys0) (wr_init sl0)
+             wfm ws_wire (fun ms : list Msg => ms) (fun o : list Msg => o) (fun _ => []) ws_rem ws_SI ws_RRel
+             eq_refl ws_S_init ws_S_queue ws_S_out ws_R_init ws_R_in ws_decode_complete (fun _ => 0%nat)) as H.
+    cbv zeta in *. rewrite <- (app_nil_r (s_dlv _)). apply H; auto.
+    - intros s ms maxb scr s' x _ Hs Ho. split; [lia|]. intros Hrem Hmx Hk. left.
+      exact (ws_do_output_progress ms s maxb scr s' x Hs Hrem Hmx Hk Ho).
+    - intros ms r c o maxb scr pipe rest r' o' pipe' Hwf Hw Hc Hi Hne Hmx Hk.
+      pose proof (ws_no_error ms r c o (pipe ++ rest) Hwf Hw Hc) as He.
+      destruct Hc as [Hwfr _].
+      destruct (wr_do_input_spec _ _ _ _ _ _ _ _ Hwfr Hi) as (_ & x & Hp & _ & Hx).
+      specialize (Hx He Hmx Hk Hne). rewrite Hp, app_length. destruct x; [contradiction|cbn; lia].
   Qed.
 End WsProofs.
